@@ -2,21 +2,29 @@ import PytezosModel.Proofs.C22
 /-! C22 — a failing REPL cell leaves the session as if it never ran.
 
 `Impl.Session` mirrors `Interpreter.execute` over an explicit heap of context objects (a stacked big map holds a
-context *reference*); how the backup is taken and what `BigMapType.__deepcopy__` does with the reference are read
-from the source (`Generated.C22`, combined in `Impl.Session.config`: does the stack copy follow the context copy?).
-`observe` follows references: the stack without addresses, the contents of every context reachable from a stacked
-big map (id counters, registered big maps, declared types), and the interpreter's own context.
+context *reference*) and over pytezos' `MichelsonStack` (`items` + the `protected` counter that DIP / DIP n / DIG / DUG /
+DUP n raise and lower around their work, with no try/finally).  How the backup is taken, what
+`BigMapType.__deepcopy__` does with the reference and how the handler puts the stack back are read from the source
+(`Generated.C22`, combined in `Impl.Session.config`: does the stack copy follow the context copy?  is the stack object
+replaced, or only its `items`?).
+`observe` follows references: the stack without addresses, its `protected` counter (where the next push lands, how many
+items the next pop reaches), the contents of every context reachable from a stacked big map (id counters, registered
+big maps, declared types, the patched AMOUNT / BALANCE / NOW / SENDER / SOURCE / CHAIN_ID), and the interpreter's own
+context.
 `WF`: the interpreter's context exists and every stacked big map points at it; it holds for `Interpreter()` and is
 preserved by every cell (`cell_wf`), so it holds in every reachable state.
-Failures are at ANY instruction position: a cell is an arbitrary instruction list and fails wherever one of its
-instructions raises (FAILWITH, an ill-typed instruction, stack underflow, a rejected literal, a missing shell, a parse
-error).  Sessions are arbitrary cell lists (induction, no length bound). -/
+Failures are at ANY instruction position, at any nesting depth: a cell is an arbitrary list of programs (leaves, DIP
+{ … }, DIP n { … } around arbitrary bodies) and fails wherever one of its instructions raises (FAILWITH, an ill-typed
+instruction, stack underflow, DIG / DUG / DUP n / DROP n / DIP n beyond the stack, a rejected literal or PATCH value, a
+missing shell, a parse error) — in particular while `protected > 0`.  Sessions are arbitrary cell lists (induction, no
+length bound). -/
 namespace C22
 open Impl.Session Proofs.C22
 
 /-- the source under test has the repaired shape: one memo, context copied first, `__deepcopy__` looks the memo up —
-so the copied stack points at the copied context -/
-theorem config_eq : config = some true := by decide
+so the copied stack points at the copied context — and the handler replaces the stack object (`self.stack =
+stack_backup`), so the `protected` counter of the stack that was live when the cell raised is dropped with it -/
+theorem config_eq : config = some ⟨true, .replaceStack⟩ := by decide
 
 /-- `Interpreter()` is well-formed -/
 theorem init_wf : WF State.init := rep_init.1
@@ -25,15 +33,17 @@ theorem init_wf : WF State.init := rep_init.1
 theorem cell_wf (σ : State) (hwf : WF σ) (cl : Cell) :
     ∃ σ' r, cell σ cl = some (σ', r) ∧ WF σ' := by
   obtain ⟨a, ha⟩ := exists_rep hwf
-  exact ⟨(cellWith true σ cl).1, (cellWith true σ cl).2, by simp only [cell, config_eq, Option.map_some], (cell_rep ha cl).1.1⟩
+  exact ⟨(cellWith repaired σ cl).1, (cellWith repaired σ cl).2, by simp only [cell, config_eq, Option.map_some], (cell_rep ha cl).1.1⟩
 
-/-- the property for one cell: if the cell fails — at whatever instruction — the state the interpreter is left in
-cannot be told from the one before the cell, by any observation that follows references -/
+/-- the property for one cell: if the cell fails — at whatever instruction, inside whatever DIP body — the state the
+interpreter is left in cannot be told from the one before the cell, by any observation that follows references
+(`protected` and the patched context fields included) -/
 theorem execute_atomic (σ : State) (hwf : WF σ) (cl : Cell) (σ' : State) (h : cell σ cl = some (σ', .failed)) :
     observe σ' = observe σ := by
   obtain ⟨a, ha⟩ := exists_rep hwf
   simp only [cell, config_eq, Option.map_some, Option.some.injEq] at h
   obtain ⟨h1, h2⟩ := cell_rep ha cl
+  rw [show (⟨true, .replaceStack⟩ : Cfg) = repaired from rfl] at h
   rw [h] at h1 h2
   have hf : (cellP a cl).2.isFailed = true := by rw [← h2]; rfl
   rw [cellP_failed a cl hf] at h1
@@ -44,22 +54,30 @@ same result, and the new state represents the new aliasing-free state -/
 theorem cell_eq_alias_free (σ : State) (a : PState) (ha : Rep σ a) (cl : Cell) :
     ∃ σ' r, cell σ cl = some (σ', r) ∧ r = (cellP a cl).2 ∧ Rep σ' (cellP a cl).1 := by
   obtain ⟨h1, h2⟩ := cell_rep ha cl
-  exact ⟨(cellWith true σ cl).1, (cellWith true σ cl).2, by simp only [cell, config_eq, Option.map_some], h2, h1⟩
+  exact ⟨(cellWith repaired σ cl).1, (cellWith repaired σ cl).2, by simp only [cell, config_eq, Option.map_some], h2, h1⟩
 
-/-- the property: for EVERY session (any cells, failing at any instruction position, any length) started in a
-well-formed state, the session with the failing cells removed gives the same results for the remaining cells —
-stack effects, big_map ids and lazy diffs of COMMIT / RUN / BIG_MAP_DIFF are part of the results — and ends in a
-state with the same observation -/
+/-- no protected prefix survives a cell: started with `protected = 0`, every cell — successful or failing anywhere,
+e.g. inside nested DIP bodies or between the `protect` and the `restore` of DIG / DUP n — ends with `protected = 0`,
+so the next push lands on top and the next pop reaches every item -/
+theorem cell_protected_zero (σ : State) (h0 : σ.stack.prot = 0) (cl : Cell) :
+    ∃ σ' r, cell σ cl = some (σ', r) ∧ σ'.stack.prot = 0 :=
+  ⟨(cellWith repaired σ cl).1, (cellWith repaired σ cl).2, by simp only [cell, config_eq, Option.map_some], cellWith_prot_zero σ h0 cl⟩
+
+/-- the property: for EVERY session (any cells, failing at any instruction position of any nesting depth, any length)
+started in a well-formed state, the session with the failing cells removed gives the same results for the remaining
+cells — stack effects, big_map ids and lazy diffs of COMMIT / RUN / BIG_MAP_DIFF are part of the results — and ends in
+a state with the same observation (stack, `protected`, reachable contexts, the interpreter's context with its
+patched fields) -/
 theorem session_eq_filtered_from (σ : State) (hwf : WF σ) (cs : List Cell) :
     ∃ rs σf kept rs' σf', session σ cs = some (rs, σf) ∧ dropFailing σ cs = some kept ∧
       session σ kept = some (rs', σf') ∧
       rs' = rs.filter (fun r => !r.isFailed) ∧ observe σf' = observe σf := by
   obtain ⟨a, ha⟩ := exists_rep hwf
   obtain ⟨s1, s2⟩ := session_rep ha cs
-  obtain ⟨t1, t2⟩ := session_rep ha (dropFailingWith true σ cs)
+  obtain ⟨t1, t2⟩ := session_rep ha (dropFailingWith repaired σ cs)
   obtain ⟨f1, f2⟩ := sessionP_filtered a cs
-  refine ⟨(sessionWith true σ cs).1, (sessionWith true σ cs).2, dropFailingWith true σ cs,
-    (sessionWith true σ (dropFailingWith true σ cs)).1, (sessionWith true σ (dropFailingWith true σ cs)).2,
+  refine ⟨(sessionWith repaired σ cs).1, (sessionWith repaired σ cs).2, dropFailingWith repaired σ cs,
+    (sessionWith repaired σ (dropFailingWith repaired σ cs)).1, (sessionWith repaired σ (dropFailingWith repaired σ cs)).2,
     by simp only [session, config_eq, Option.map_some], by simp only [dropFailing, config_eq, Option.map_some],
     by simp only [session, config_eq, Option.map_some], ?_, ?_⟩
   · rw [t1, s1, dropFailing_rep ha, f1]
@@ -72,13 +90,13 @@ theorem session_eq_filtered (cs : List Cell) :
       rs' = rs.filter (fun r => !r.isFailed) ∧ observe σf' = observe σf :=
   session_eq_filtered_from State.init init_wf cs
 
-/-- cell by cell: the result of every surviving cell and the observation right after it (stack, contexts reachable from
-stacked big maps, interpreter context) are those of the session without the failing cells -/
+/-- cell by cell: the result of every surviving cell and the observation right after it (stack, `protected`, contexts
+reachable from stacked big maps, interpreter context) are those of the session without the failing cells -/
 theorem session_trace_eq_filtered_from (σ : State) (hwf : WF σ) (cs : List Cell) :
     ∃ tr kept tr', trace σ cs = some tr ∧ dropFailing σ cs = some kept ∧ trace σ kept = some tr' ∧
       tr' = tr.filter (fun r => !r.1.isFailed) := by
   obtain ⟨a, ha⟩ := exists_rep hwf
-  refine ⟨traceWith true σ cs, dropFailingWith true σ cs, traceWith true σ (dropFailingWith true σ cs),
+  refine ⟨traceWith repaired σ cs, dropFailingWith repaired σ cs, traceWith repaired σ (dropFailingWith repaired σ cs),
     by simp only [trace, config_eq, Option.map_some], by simp only [dropFailing, config_eq, Option.map_some],
     by simp only [trace, config_eq, Option.map_some], ?_⟩
   rw [trace_rep ha, trace_rep ha, dropFailing_rep ha, traceP_filtered]
@@ -88,39 +106,94 @@ theorem session_trace_eq_filtered (cs : List Cell) :
       trace State.init kept = some tr' ∧ tr' = tr.filter (fun r => !r.1.isFailed) :=
   session_trace_eq_filtered_from State.init init_wf cs
 
-/-- every state a session of a fresh interpreter reaches is well-formed -/
-theorem session_wf (cs : List Cell) : ∃ rs σf, session State.init cs = some (rs, σf) ∧ WF σf := by
+/-- every state a session of a fresh interpreter reaches is well-formed and has nothing protected -/
+theorem session_wf (cs : List Cell) : ∃ rs σf, session State.init cs = some (rs, σf) ∧ WF σf ∧ σf.stack.prot = 0 := by
   obtain ⟨_, s2⟩ := session_rep rep_init cs
-  exact ⟨(sessionWith true State.init cs).1, (sessionWith true State.init cs).2, by simp only [session, config_eq, Option.map_some], s2.1⟩
+  exact ⟨(sessionWith repaired State.init cs).1, (sessionWith repaired State.init cs).2,
+    by simp only [session, config_eq, Option.map_some], s2.1, sessionWith_prot_zero State.init rfl cs⟩
 
-/-! ### non-vacuity, and the pinned shape (documentation: `cellWith false` is the backup that keeps the reference) -/
+/-! ### non-vacuity, and the two defective shapes (documentation: `cellWith ⟨false, _⟩` is the backup that keeps the
+reference, `cellWith ⟨_, .itemsOnly⟩` the restore that keeps the live stack object) -/
 
-def declare : Cell := [.declStorage .bigmap, .declParam .unit]
-def beginCell : Cell := [.begin_ .unit (.seq [(1, 1)])]
-def body : Cell := [.basic .cdr, .basic .nilOp, .basic .pair]
+def declare : Cell := [.op (.declStorage .bigmap), .op (.declParam .unit)]
+def beginCell : Cell := [.op (.begin_ .unit (.seq [(1, 1)]))]
+def body : Cell := [.op (.basic .cdr), .op (.basic .nilOp), .op (.basic .pair)]
 /-- `CDR; BIG_MAP_DIFF; FAIL`: asks the stacked big map's context for an id, then fails -/
-def failing : Cell := [.basic .cdr, .bigMapDiff, .basic .unit, .basic .failwith]
-def commitCell : Cell := [.commit]
+def failing : Cell := [.op (.basic .cdr), .op .bigMapDiff, .op (.basic .unit), .op (.basic .failwith)]
+def commitCell : Cell := [.op .commit]
 
 def diffIds : CellResult → List Int
   | .ok outs => outs.flatMap fun o => o.diff.map (·.id)
   | .failed => []
 
 -- with the repaired backup the COMMIT after the failing cell still allocates big_map id 0 …
-example : ((sessionWith true State.init [declare, beginCell, body, failing, commitCell]).1.map diffIds)
+example : ((sessionWith repaired State.init [declare, beginCell, body, failing, commitCell]).1.map diffIds)
     = [[], [], [], [], [0]] := by decide
 -- … and the failing cell really fails at its fourth instruction, after BIG_MAP_DIFF has run
-example : (cellWith true (sessionWith true State.init [declare, beginCell, body]).2 failing).2 = .failed := by decide
-example : (cellWith true (sessionWith true State.init [declare, beginCell, body]).2 [.basic .cdr, .bigMapDiff]).2
+example : (cellWith repaired (sessionWith repaired State.init [declare, beginCell, body]).2 failing).2 = .failed := by decide
+example : (cellWith repaired (sessionWith repaired State.init [declare, beginCell, body]).2 [.op (.basic .cdr), .op .bigMapDiff]).2
     = .ok [⟨"BIG_MAP_DIFF", [⟨0, .alloc, [(1, (), some 1)]⟩], none⟩] := by decide
 
 /-- pinned shape (`__deepcopy__` keeps `context`, two separate deep copies): after the rollback the stacked big map
 points at the discarded context, whose id counter BIG_MAP_DIFF has advanced — the later COMMIT allocates id 1, the
 same session without the failing cell allocates id 0 -/
 theorem pinned_shape_counterexample :
-    ((sessionWith false State.init [declare, beginCell, body, failing, commitCell]).1.map diffIds) = [[], [], [], [], [1]] ∧
-    ((sessionWith false State.init [declare, beginCell, body, commitCell]).1.map diffIds) = [[], [], [], [0]] ∧
-    observe (cellWith false (sessionWith false State.init [declare, beginCell, body]).2 failing).1
-      ≠ observe (sessionWith false State.init [declare, beginCell, body]).2 := by decide
+    ((sessionWith ⟨false, .replaceStack⟩ State.init [declare, beginCell, body, failing, commitCell]).1.map diffIds) = [[], [], [], [], [1]] ∧
+    ((sessionWith ⟨false, .replaceStack⟩ State.init [declare, beginCell, body, commitCell]).1.map diffIds) = [[], [], [], [0]] ∧
+    observe (cellWith ⟨false, .replaceStack⟩ (sessionWith ⟨false, .replaceStack⟩ State.init [declare, beginCell, body]).2 failing).1
+      ≠ observe (sessionWith ⟨false, .replaceStack⟩ State.init [declare, beginCell, body]).2 := by decide
+
+/-! failures with a protected prefix, and the patched environment -/
+
+def push12 : Cell := [.op (.basic (.push 1)), .op (.basic (.push 2))]
+/-- `DIP { UNIT ; FAILWITH }`: raises inside the body, while one item is protected -/
+def failInDip : Cell := [.dip [.op (.basic .unit), .op (.basic .failwith)]]
+/-- `PUSH nat 9 ; DIP 2 { DIP { DROP ; UNIT ; UNIT ; ADD } }`: raises two DIPs deep, three items protected -/
+def failNested : Cell := [.op (.basic (.push 9)), .dipn 2 [.dip [.op (.basic .drop), .op (.basic .unit), .op (.basic .unit), .op (.basic .add)]]]
+/-- `DIG 2` on two items: `protect(2)` succeeds, `pop1()` raises -/
+def digAtDepth : Cell := [.op (.basic (.dig 2))]
+/-- `DUP 3` on two items: `protect(2)` succeeds, `peek()` raises -/
+def dupBeyond : Cell := [.op (.basic (.dupn 2))]
+def push3 : Cell := [.op (.basic (.push 3))]
+
+/-- `protected` of the live stack object at the moment the cell raises -/
+def protAtFailure (σ : State) (cl : Cell) : Option Nat :=
+  match runInstrs heapStore σ.cur cl σ.stack σ.heap with
+  | (.error f, _) => some f.prot
+  | (.ok _, _) => none
+
+-- the four cells raise with 1, 3, 2 and 2 items protected …
+example : [failInDip, failNested, digAtDepth, dupBeyond].map (protAtFailure (sessionWith repaired State.init [push12]).2)
+    = [some 1, some 3, some 2, some 2] := by decide
+-- … are reported as failed, and the PUSH after them lands on top
+example : (sessionWith repaired State.init [push12, failInDip, failNested, digAtDepth, dupBeyond, push3]).1.map CellResult.isFailed
+    = [false, true, true, true, true, false] := by decide
+example : (observe (sessionWith repaired State.init [push12, failInDip, failNested, digAtDepth, dupBeyond, push3]).2).stack
+    = [.nat 3, .nat 2, .nat 1] := by decide
+-- a successful DIP works below the top: `DIP { PUSH nat 7 }` on [2, 1] gives [2, 7, 1]
+example : (observe (sessionWith repaired State.init [push12, [.dip [.op (.basic (.push 7))]]]).2).stack = [.nat 2, .nat 7, .nat 1] := by decide
+
+/-- the in-place restore (`self.stack.items = stack_backup.items`): the live stack object survives the rollback with
+the `protected` counter it had when the cell raised, so the state after the failing cell differs from the one before
+it (`protected` 1, resp. 2, instead of 0) and a later PUSH lands below the leaked prefix: `[2, 3, 1]`, `[2, 1, 3]`
+instead of `[3, 2, 1]` -/
+theorem items_only_counterexample :
+    (observe (cellWith ⟨true, .itemsOnly⟩ (sessionWith ⟨true, .itemsOnly⟩ State.init [push12]).2 failInDip).1).protected_ = 1 ∧
+    observe (cellWith ⟨true, .itemsOnly⟩ (sessionWith ⟨true, .itemsOnly⟩ State.init [push12]).2 failInDip).1
+      ≠ observe (sessionWith ⟨true, .itemsOnly⟩ State.init [push12]).2 ∧
+    (observe (sessionWith ⟨true, .itemsOnly⟩ State.init [push12, failInDip, push3]).2).stack = [.nat 2, .nat 3, .nat 1] ∧
+    (observe (sessionWith ⟨true, .itemsOnly⟩ State.init [push12, digAtDepth, push3]).2).stack = [.nat 2, .nat 1, .nat 3] ∧
+    (observe (sessionWith ⟨true, .itemsOnly⟩ State.init [push12, push3]).2).stack = [.nat 3, .nat 2, .nat 1] := by decide
+
+/-- `PATCH AMOUNT 5` · `PATCH AMOUNT 9 ; PATCH SENDER a0 ; DIP { FAIL }` · `AMOUNT ; SENDER` -/
+def patchSession : List Cell :=
+  [[.op (.patch .amount (some (.int 5)))],
+   [.op (.patch .amount (some (.int 9))), .op (.patch .sender (some (.str (.addr 0)))), .dipn 0 [.op (.basic .unit), .op (.basic .failwith)]],
+   [.op (.basic .amount), .op (.basic .sender)]]
+
+-- the patches of the failing cell are rolled back with the context: AMOUNT pushes 5 mutez, SENDER the dummy address
+example : (sessionWith repaired State.init patchSession).1.map CellResult.isFailed = [false, true, false] := by decide
+example : (observe (sessionWith repaired State.init patchSession).2).stack = [.address .dummy, .mutez 5] := by decide
+example : ((observe (sessionWith repaired State.init patchSession).2).context.map fun c => (c.amount, c.sender)) = some (some 5, none) := by decide
 
 end C22
